@@ -388,6 +388,15 @@ func genLarge(rng *vh.RNG, next *int64) Case {
 			if held > 0 {
 				held--
 			}
+			if rng.Bool() {
+				// Reset after the ring has (possibly) grown: back to the initial size, then it fills and grows again with the
+				// read cursor somewhere in the middle
+				c.Ops = append(c.Ops, Op{K: "X"})
+				size, held = int(c.Init), 0
+				wn(rng.Range(size/3, size-1))
+				rm(rng.Range(size/4, size/3+1))
+				wn(size - held + rng.Range(0, 3))
+			}
 		}
 	}
 	c.Ops = append(c.Ops, Op{K: "L"}, Op{K: "RM", V: int64(rng.Range(1, 900))}, Op{K: "RA"}, Op{K: "L"})
